@@ -4,8 +4,11 @@ PROP = {
     "properties_file": "Properties/C02.v",
     "theorems": ["C02_antisym", "C02_trans", "C02_total_preorder", "C02_tie_iff_key_eq", "C02_less_strict_weak_order",
                  "C02_order_independent", "C02_history_independent", "C02_history_state", "C02_ecmp_is_key",
-                 "C02_ecmp_total", "C02_ecmp_set_exact", "C02_sort_hypothesis_satisfiable", "C02_every_history_runs"],
+                 "C02_ecmp_total", "C02_ecmp_set_exact", "C02_sort_hypothesis_satisfiable", "C02_every_history_runs",
+                 "C02_total_preorder_gen"],
     "allowed_axioms": [],
+    # translator: regenerates coq/Gen/SelectGen.v from $VERIF_REPO/route, net on every run (written only when changed)
+    "gen": [{"name": "gosub2coq", "cmd": ["python3", "tools/gosub2coq/run.py", "route"], "timeout": 600}],
     "harness": "c02",
     "modelrun": {"name": "c02", "extracted": ["c02_model"], "driver": "ocaml/c02/c02_run.ml"},
     "tiers": {"quick": {"cases": 30000}, "thorough": {"cases": 300000}},
@@ -18,6 +21,10 @@ PROP = {
             "at least two pairs are still tied after the eBGP step or that mixes protocols; a pair likewise; a group with "
             "equal-cost candidates or mixed CLUSTER_LIST presence / protocols; distinct = distinct inputs. Every generator also varies what the decision process must NOT read: AS_PATH contents at equal length (first ASN / leading AS_SET / nil, empty, segment-less AS_PATH), communities, large communities, unknown attributes, ATOMIC_AGGREGATE, AGGREGATOR, path id, OTC, BMPPostPolicy, LTime, HiddenReason, RedistributedFrom; C03 additionally sweeps every ordered pair of a 76-path domain MED x AS_PATH variant x eBGP x identifier x peer address",
     "trusted_base": [
+        "tools/gosub2coq (profile route; go/packages, go/types): the translation of BGPPath.Select / ECMP / clusterListLen, "
+        "StaticPath.Select / ECMP and IP.Compare into coq/Gen/SelectGen.v over the records of Model/PathSel.v (field map, "
+        "subset and non-nil assumptions in tools/gosub2coq/main.go and the header of SelectGen.v); the dispatching "
+        "Path.Select / Path.ECMP stay hand-modelled",
         "extraction (ExtrOcamlBasic only) + ocaml/common/conv.ml + ocaml/c02/c02_run.ml",
         "Go harness harness/pathsel + harness/cmd/c02 (path construction, observation of Select on triples and of "
         "LocRIB.Get(pfx).Paths()/ECMPPathCount/BestPath/ECMPPaths after every AddPath/RemovePath, oracle: antisymmetry, "
